@@ -72,6 +72,22 @@ def main(tier: str) -> int:
         if got_v_ != ref_v_ or (got_s_ is not None and got_s_ != ref_s_):
             chk.fail("calling a tree does not return the value of the expression it denotes", {"tree": ref_s_, "got": str(got_v_)[:120], "reference": ref_v_, "printed": got_s_},
                      {"fn": "__call__", "clause": "arity0"})
+    # structural equality looks at the symbols, not at how they are displayed: two different operators that share a sign
+    # (unary and binary minus)
+    from thefittest.base import TerminalNode as _TN
+    neg_ = FunctionalNode(create_operator("(-{})", "neg", "-", lambda a: -a))
+    sub_ = FunctionalNode(create_operator("({} - {})", "sub", "-", lambda a, b: a - b))
+    xa, xb_ = _TN(5.0, "xa"), _TN(7.0, "xb")
+    t_ns, t_sn = _Tree([neg_, sub_, xa, xb_]), _Tree([sub_, neg_, xa, xb_])
+    chk.count("same_sign_operators")
+    chk.case(("eq_sign", "neg/sub"))
+    try:
+        eq_ = bool(t_ns == t_sn)
+    except Exception as e:  # noqa
+        eq_ = repr(e)[:80]
+    if eq_ is not False or not bool(t_ns == t_ns.copy()) or t_ns() != 2.0 or t_sn() != -12.0:
+        chk.fail("tree equality is not structural", {"left": "[neg, sub, xa, xb] = -(xa - xb)", "right": "[sub, neg, xa, xb] = (-xa - xb)", "equal": str(eq_),
+                                                     "values": [float(t_ns()), float(t_sn())]}, {"fn": "__eq__", "clause": "sign"})
     for ti, t in enumerate(trees):
         fl = sy.flat(t)
         ar = [int(a) for a in t._n_args]
@@ -147,6 +163,22 @@ def main(tier: str) -> int:
         val2 = {"x0": 10, "x1": -2, "x2": -1}
         if reb() != TL.ref_eval(nested, lambda p, n: val2[n], lambda n, a: apply_of[n](a)) or t() != ref_v or str(reb) != got_s:
             chk.fail("set_terminals does not rebind exactly the named variables on a copy", d, {"fn": "set_terminals"})
+        # "on a copy" also when nothing is rebound (no leaf carries a given name, or no name is given): the result is an
+        # independent tree - editing its node list in place must not reach the original
+        if ti % 4 == 0:
+            for kwv in ({}, {"x9": 4}, {n_: 1 for n_ in ("x0", "x1", "x2") if n_ not in names}):
+                cp2 = t.set_terminals(**kwv)
+                if cp2._nodes is t._nodes or (hasattr(cp2._n_args, "base") and cp2._n_args is t._n_args and False):
+                    chk.fail("set_terminals does not rebind exactly the named variables on a copy", {**d, "named": sorted(kwv), "shares": "node list"},
+                             {"fn": "set_terminals", "clause": "copy"})
+                    break
+                before = list(t._nodes)
+                cp2._nodes[0] = before[-1]
+                if list(t._nodes) != before:
+                    chk.fail("set_terminals does not rebind exactly the named variables on a copy", {**d, "named": sorted(kwv), "shares": "an in-place edit of the result changed the original"},
+                             {"fn": "set_terminals", "clause": "copy"})
+                    t._nodes[0] = before[0]
+                    break
     # the interpretation tables are only known once all symbols have been seen
     for o in ops:
         if o.get("table", 0) is None:
